@@ -179,6 +179,10 @@ func (chain *groupChain) Count() uint64 {
 }
 
 func (chain *groupChain) Close() {
+	// save and remove do not look at the result of their store writes: do not close the store under an
+	// AddGroup / remove / fork switch that is in the middle of them
+	chain.lock.Lock()
+	defer chain.lock.Unlock()
 	chain.groups.Close()
 }
 
